@@ -603,14 +603,16 @@ impl<R: BufRead> LosslessDecoder<R> {
                     .ok_or(DecodingError::BitStreamError)?;
                 let color = color_cache.lookup((code - 280).into());
                 data[index * 4..][..4].copy_from_slice(&color);
+                color_cache.insert(color);
                 index += 1;
 
                 if index < next_block_start {
                     if let Some((bits, code)) = tree[GREEN].peek_symbol(&self.bit_reader) {
                         if code >= 280 {
                             self.bit_reader.consume(bits)?;
-                            data[index * 4..][..4]
-                                .copy_from_slice(&color_cache.lookup((code - 280).into()));
+                            let color = color_cache.lookup((code - 280).into());
+                            data[index * 4..][..4].copy_from_slice(&color);
+                            color_cache.insert(color);
                             index += 1;
                         }
                     }
